@@ -12,7 +12,13 @@
      _parse_newkeys     : set the flag                             -> Recv 21
    A handler that replies through the gate while the flag is clear leaves the transport thread blocked
    (ttw = Some msgs); from then on no transport-thread event is enabled.  The environment event Timeout
-   stands for clear_to_send_timeout passing (SSHException "Key-exchange timed out", the transport dies). *)
+   stands for clear_to_send_timeout passing (SSHException "Key-exchange timed out", the transport dies).
+
+   Locks: a user thread that performs a gated send while holding `self.lock` of a Channel / Transport parks at
+   the gate WITH the lock (lk); a handler that needs that lock then blocks the transport thread behind it
+   (ttl), and the flag can never be set.  Whether such a code path exists is a generated fact
+   (locked_send_count, from the AST of every critical section); the event UserSendLocked behaves that way
+   only in step_gen true.  The model has one lock (all channels / the transport lock are conflated). *)
 From Coq Require Import ZArith List Bool.
 From PV Require Import Bytes C11_gen.
 Import ListNotations.
@@ -31,6 +37,15 @@ Definition disc_of (p : Z) : disc :=
   match lookup p handler_table with Some (d, _) => d | None => NoReply end.
 Definition reply_types (p : Z) : list Z :=
   match lookup p handler_table with Some (_, l) => l | None => [] end.
+
+Fixpoint lookupb (p : Z) (t : list (Z * bool)) : bool :=
+  match t with
+  | [] => false
+  | (q, x) :: r => if q =? p then x else lookupb p r
+  end.
+Definition needs_lock (p : Z) : bool := lookupb p handler_locks.
+(* does the code contain a send performed while self.lock is held? *)
+Definition code_locked : bool := negb (locked_send_count =? 0).
 
 Definition disc_eqb (a b : disc) : bool :=
   match a, b with NoReply, NoReply | Ungated, Ungated | Gated, Gated => true | _, _ => false end.
@@ -68,23 +83,29 @@ Record st := mkst {
   ttw : option (list item);   (* transport thread blocked in _send_user_message with these messages *)
   uq : list Z;                (* user messages waiting at the gate, in arrival order *)
   dead : bool;
-  out : list item             (* emitted messages, oldest first *)
+  out : list item;            (* emitted messages, oldest first *)
+  lk : bool;                  (* a user thread waits at the gate holding self.lock *)
+  ttl : bool                  (* transport thread blocked on that lock inside a handler *)
 }.
 
-Definition init_st (keep : bool) : st := mkst Idle true false keep None [] false [].
+Definition init_st (keep : bool) : st := mkst Idle true false keep None [] false [] false false.
 
 Definition emit (s : st) (its : list item) : st :=
-  mkst (ph s) (cts s) (need s) (ka s) (ttw s) (uq s) (dead s) (out s ++ its).
+  mkst (ph s) (cts s) (need s) (ka s) (ttw s) (uq s) (dead s) (out s ++ its) (lk s) (ttl s).
 Definition set_uq (s : st) (q : list Z) : st :=
-  mkst (ph s) (cts s) (need s) (ka s) (ttw s) q (dead s) (out s).
+  mkst (ph s) (cts s) (need s) (ka s) (ttw s) q (dead s) (out s) (lk s) (ttl s).
 Definition set_phase (s : st) (p : phase) (c : bool) : st :=
-  mkst p c (need s) (ka s) (ttw s) (uq s) (dead s) (out s).
+  mkst p c (need s) (ka s) (ttw s) (uq s) (dead s) (out s) (lk s) (ttl s).
 Definition set_need (s : st) (n : bool) : st :=
-  mkst (ph s) (cts s) n (ka s) (ttw s) (uq s) (dead s) (out s).
+  mkst (ph s) (cts s) n (ka s) (ttw s) (uq s) (dead s) (out s) (lk s) (ttl s).
 Definition block (s : st) (its : list item) : st :=
-  mkst (ph s) (cts s) (need s) (ka s) (Some its) (uq s) (dead s) (out s).
+  mkst (ph s) (cts s) (need s) (ka s) (Some its) (uq s) (dead s) (out s) (lk s) (ttl s).
 Definition kill (s : st) : st :=
-  mkst (ph s) (cts s) (need s) (ka s) (ttw s) (uq s) true (out s).
+  mkst (ph s) (cts s) (need s) (ka s) (ttw s) (uq s) true (out s) (lk s) (ttl s).
+Definition set_lk (s : st) (l : bool) : st :=
+  mkst (ph s) (cts s) (need s) (ka s) (ttw s) (uq s) (dead s) (out s) l (ttl s).
+Definition block_lock (s : st) : st :=
+  mkst (ph s) (cts s) (need s) (ka s) (ttw s) (uq s) (dead s) (out s) (lk s) true.
 
 (* _send_kex_init: clear the flag, in_kex, emit KEXINIT *)
 Definition kexinit (s : st) : st := emit (set_phase s SentKexinit false) [(20, OKex)].
@@ -95,11 +116,13 @@ Definition keepalive_msg : list item := map (fun t => (t, OKeepalive)) keepalive
 (* _send_user_message on the transport thread *)
 Definition gate_tt (s : st) (its : list item) : st := if cts s then emit s its else block s its.
 
+Definition is_nil {A} (l : list A) : bool := match l with [] => true | _ => false end.
 Definition user_ok (t : Z) : bool := negb ((t =? 20) || (t =? 21)).
-Definition tt_free (s : st) : bool := match ttw s with None => true | Some _ => false end.
+Definition tt_free (s : st) : bool := match ttw s with None => negb (ttl s) | Some _ => false end.
 
 Inductive ev :=
 | UserSend (t : Z)        (* a user thread calls _send_user_message with a message of type t *)
+| UserSendLocked (t : Z)  (* the same while holding self.lock (only where the code has such a path) *)
 | UserWake                (* the oldest waiting user thread re-tests the flag *)
 | UserRekey               (* renegotiate_keys from a user thread *)
 | Threshold               (* the packetizer raises need_rekey *)
@@ -125,6 +148,7 @@ Definition recv (s : st) (p : Z) (w : bool) : st :=
     | SentNewkeys => set_need (set_phase s Idle true) false
     | _ => s
     end
+  else if needs_lock p && lk s then block_lock s     (* the handler's self.lock.acquire() *)
   else if w then
     match disc_of p with
     | NoReply => s
@@ -133,14 +157,20 @@ Definition recv (s : st) (p : Z) (w : bool) : st :=
     end
   else s.
 
-Definition step (s : st) (e : ev) : st :=
+Definition step_gen (locked : bool) (s : st) (e : ev) : st :=
   if dead s then s else
   match e with
   | UserSend t =>
       if user_ok t then (if cts s then emit s [(t, OUser)] else set_uq s (uq s ++ [t])) else s
+  | UserSendLocked t =>
+      if user_ok t then
+        (if cts s then emit s [(t, OUser)]
+         else if locked then set_lk (set_uq s (uq s ++ [t])) true else set_uq s (uq s ++ [t]))
+      else s
   | UserWake =>
       match uq s with
-      | t :: r => if cts s then emit (set_uq s r) [(t, OUser)] else s
+      | t :: r =>
+          if cts s then emit (set_lk (set_uq s r) (lk s && negb (is_nil r))) [(t, OUser)] else s
       | [] => s
       end
   | UserRekey => if is_idle (ph s) then kexinit s else s
@@ -160,7 +190,10 @@ Definition step (s : st) (e : ev) : st :=
       else s
   end.
 
+(* the working tree: locked sends exist iff the translator found one *)
+Definition step (s : st) (e : ev) : st := step_gen code_locked s e.
 Definition run (s : st) (evs : list ev) : st := fold_left step evs s.
+Definition run_gen (locked : bool) (s : st) (evs : list ev) : st := fold_left (step_gen locked) evs s.
 
 (* the peer's half of an exchange, as seen by the transport thread, from each phase *)
 Definition complete (p : phase) : list ev :=
@@ -188,24 +221,26 @@ Definition quiet (e : ev) : bool :=
 
 (* ---- the cell the harness runs on the real code ------------------------------------- *)
 (* (initiation 0 = renegotiate_keys from a user thread / 1 = threshold picked up by the run loop,
-    in-flight type (0 = none), reply path taken, keepalive enabled and ticking during the exchange)
-   -> [code; delivered]   code 2 = transport thread waits on the flag, 1 = a message >= 50 went out
+    in-flight type (0 = none), reply path taken, keepalive enabled and ticking during the exchange,
+    the user operation performs its gated send while holding self.lock)
+   -> [code; delivered]   code 3 = transport thread waits on a lock held by a user thread parked at the gate,
+   2 = transport thread waits on the flag, 1 = a message >= 50 went out
    between KEXINIT and NEWKEYS, 0 = transparent; delivered = the queued user data went out after NEWKEYS *)
-Definition is_nil {A} (l : list A) : bool := match l with [] => true | _ => false end.
-
-Definition run_cell (c : Z * Z * bool * bool) : list Z :=
-  let '(ini, p, w, keep) := c in
+Definition run_cell (c : Z * Z * bool * bool * bool) : list Z :=
+  let '(ini, p, w, keep, ul) := c in
+  let stp := step_gen ul in
   let s0 := init_st keep in
-  let s1 := if ini =? 0 then step s0 UserRekey else step (step s0 Threshold) TtIter in
-  let s2 := step s1 (UserSend 94) in
-  let s3 := if keep then step s2 KeepTick else s2 in
-  let s4 := if p =? 0 then s3 else step s3 (Recv p w) in
+  let s1 := if ini =? 0 then stp s0 UserRekey else stp (stp s0 Threshold) TtIter in
+  let s2 := stp s1 (if ul then UserSendLocked 94 else UserSend 94) in
+  let s3 := if keep then stp s2 KeepTick else s2 in
+  let s4 := if p =? 0 then s3 else stp s3 (Recv p w) in
+  if ttl s4 then [3; 0] else
   match ttw s4 with
   | Some _ => [2; 0]
   | None =>
       if negb (is_nil (offenders false (out s4))) then [1; 0]
       else
-        let s5 := run s4 (complete (ph s4) ++ [UserWake]) in
+        let s5 := run_gen ul s4 (complete (ph s4) ++ [UserWake]) in
         [0; if is_idle (ph s5) && cts s5 && is_nil (uq s5) && existsb (fun it => fst it =? 94) (out s5)
             then 1 else 0]
   end.
